@@ -54,3 +54,17 @@ Print Assumptions C04_quota_tests_are_local.
 Example C04_concrete :
   droop_quota_eps (Fixed 4 4) (mkConfig "wigm-prf"%string MWigm 2 7 false false false false 0) = Ok 23334.
 Proof. vm_compute. reflexivity. Qed.
+
+(* ---- whole runs (meek and warren, every integer-carrier arithmetic, any guard) ----
+   "Meek-family rules recompute it the same way from the votes still credited after each distribution": in every
+   'iterate' snapshot of a count that ends without a crash, the reported quota is
+   floor(votes / (seats + 1)) in the arithmetic's precision -- raw: votes * S / ((seats + 1) * S) -- plus one unit in the
+   last place unless the arithmetic is exact, where votes is the snapshot's own votes total. *)
+From Droop Require Import Model.Prelude Model.Election Proofs.CmdMeta Proofs.ConserveCount Proofs.MeekRun Proofs.MeekCount.
+Theorem C04_meek_quota_recomputed_every_iteration_whole_run : forall A S (ZL : zlike A S) cfg, cf_method cfg = MMeek ->
+  forall pr fuel s k, wf_profile_m pr ->
+  exec (@crashed A) fuel (count_cmd A cfg RMeek) (init_state A cfg pr) = Some (s, k) -> k <> Abort ->
+  forall a sn, In a (actions s) -> a_tag a = TIterate -> a_snap a = Some sn ->
+  raw ZL (as_quota sn) = raw ZL (as_votes sn) * S / ((cf_nseats cfg + 1) * S) + (if exact A then 0 else raw ZL (epsilon A)).
+Proof. exact count_meek_quota. Qed.
+Print Assumptions C04_meek_quota_recomputed_every_iteration_whole_run.
